@@ -4,8 +4,45 @@ import vlib
 
 THEOREMS = [
     "Slock.C11.C11_required_count",
+    "Slock.C11.C11_succed_only_after_quorum_partial", "Slock.C11.C11_succed_only_after_quorum_violated",
+    "Slock.C11.C11_duplicate_answers_are_counted", "Slock.C11.C11_succed_reentrant_violated",
+    "Slock.C11.C11_ack_waiting", "Slock.C11.C11_ack_waiting_unlock_first_violated",
+    "Slock.C11.C11_failure_rolls_back", "Slock.C11.C11_failure_causes", "Slock.C11.C11_value_restored",
+    "Slock.C11.C11_value_not_restored_violated",
+    "Slock.C11.C11_single_shot", "Slock.C11.C11_exactly_one_outcome_partial", "Slock.C11.C11_exactly_one_outcome_guarded",
+    "Slock.C11.C11_exactly_one_outcome_violated", "Slock.C11.C11_reply_lost_violated",
+    "Slock.C11.C11_tables_drain_partial", "Slock.C11.C11_tables_drain_violated",
 ]
-FINISH = {"level": "proof", "assumptions": []}
+FINISH = {"level": "proof", "assumptions": [
+    "M-ACK (lean/Slock/Model/Ack.lean) is hand-written; its tie to server/db.go, server/lock.go, server/replication.go is the E-seq "
+    "differential: a real SLock + LockDB + ReplicationManager + ReplicationAckDB in-process as leader under the virtual clock; every "
+    "event's replies (connection, RequestId, Result, LCount, LRCount, data) and the state dumps (holders with depth / ackCount / isAof, "
+    "queue, value, commandAofs / aofLocks sizes, journal backlog, STATE counters) are compared",
+    "granularity: one event = one complete call of a real entry point (LockDB.Lock / UnLock incl. wake pass; one second of the two "
+    "sweepers; ReplicationManager.PushLock for the oldest journal record; AofChannel.AofAcked+HandleAofAcked; AofChannel.Acked+HandleAcked; "
+    "ReplicationAckDB.SwitchToFollower / FlushDB). In the server these run on different goroutines and serialise on the ack-table mutex "
+    "and the key mutex; interleavings INSIDE one such call are not modelled",
+    "intercepted: db.aofChannels[0] is a real AofChannel that is never Run(): the harness pulls the AofLock objects the engine pushed and "
+    "delivers them in push order (one channel per shard ⇒ FIFO), assigning aof ids the way Aof.PushLock does (UpdateAofId(1, n)); no file "
+    "is written, `aofed` is the harness calling AofChannel.AofAcked with the record buffer (what Aof.lockAcked does after AofFile.Flush), "
+    "`acked` is AofChannel.Acked with a LockResultCommand carrying the aof id (what the replication server's reader does)",
+    "not modelled / not exercised: the follower side (ProcessFollower*), the real network, real flush timing, ReplicationManager."
+    "SwitchToFollower's waits (the harness sets slock.state / db.status and calls ReplicationAckDB.SwitchToFollower itself), "
+    "LockDB.FlushDB (forced expiry of everything), millisecond timers, update-when-locked, show-when-locked, priorities, E = 0 requests",
+    "command subset: LOCK Flag ∈ {0, 0x20}, TimeoutFlag ∈ {0, 0x1000}, ExpriedFlag 0, 0 < Expried < 190, value frames SET / INCR(8) / "
+    "APPEND without property header; UNLOCK Flag ∈ {0, 0x01}; db.aofTime = 200 s (holds that did not go through the ack branch are never "
+    "journalled by age); key records are pinned (lockManager.refCount+1) for the duration of a history so that the value cell is not "
+    "recycled (key-record lifetime is M-ENGINE stage 2's subject)",
+    "lock-record reference counts and the recycling of freed Lock objects (db.freeLocks[shard]) are NOT in the model. Where the real "
+    "code leaves a reference count wrong (DoAckLock's `update` exit after a re-entrant require-ack LOCK; HandleLock's DoAckLock after a "
+    "write error) the harness detects it (C11:table-entry-of-freed-lock, C11:live-hold-object-freed, second reply 0+5), reports it, ends "
+    "the history there and empties the shard's pool; the random walk delivers the journal record of a re-entrant require-ack LOCK at "
+    "once and does not generate PW (VERIF_ACK_PW=1 does)",
+    "C11_exactly_one_outcome_partial / _guarded hold for guarded runs only (no unlock-first onto a pending hold; a delivered LOCK record "
+    "belongs to a lock still waiting for it); the three _violated theorems show each guard is necessary. C11_ack_waiting assumes "
+    "lockManager.locked > 0 for a key with a live hold (census: monitor C11:census, theorem C17 over M-ENGINE)",
+    "theorems quantify over reqAcks cfg < 255 (≤ 253 followers): db.ackCount is a uint8 and 0xff means 'not pending'",
+]}
 
 ACK_FILES = ["zz_verif_ack_test.go", "zz_verif_engine_test.go", "zz_verif_engine_monitor_test.go"]
 CORPUS = os.path.join(vlib.VERIF, "corpus", "ack.ops")
@@ -44,7 +81,9 @@ def first_divergence(op, impl, model):
 
 
 def run_ack(ctx, exe, n, seed, extra=None):
-    outdir = ctx.run_harness(exe, "ack", n, seed=seed, extra=extra or {}, timeout=900)
+    extra = dict(extra or {})
+    extra.setdefault("VERIF_OPS", "60")
+    outdir = ctx.run_harness(exe, "ack", n, seed=seed, extra=extra, timeout=900)
     if not outdir:
         return
     dis = ctx.diff(outdir, "ack", classify=classify)
@@ -73,7 +112,7 @@ def run(ctx):
     exe = ctx.build_harness("server", only=ACK_FILES)
     if not exe:
         return
-    n = 120 if ctx.tier == "quick" else 1500
+    n = 2000 if ctx.tier == "quick" else 15000
     seeds = [ctx.seed] if ctx.tier == "quick" else [ctx.seed + i for i in range(4)]
     first = True
     for sd in seeds:
@@ -83,13 +122,23 @@ def run(ctx):
             ctx.cov["corpus_lines_replayed"] = sum(1 for l in open(CORPUS) if l.startswith("ack "))
         first = False
         run_ack(ctx, exe, n, sd, extra)
+    ctx.cov["rule"] = ("seeded histories: 1-3 keys, 2-4 connections, followers 0..2 x ack mode all / majority; LOCK with / without require-ack, "
+                       "with / without SET / INCR / APPEND frame, Timeout 0..9, Expried 1..20, Count 0..3, Rcount 0..2; UNLOCK (12% unlock-first); "
+                       "ticks; journal delivery in push order; own-flush report once per id (85% ok); follower answers (85% ok, duplicates, settled "
+                       "and unknown ids); role change + SwitchToFollower, FlushDB, channel closed / reopened; drain (deliver everything, no more "
+                       "acknowledgements, release settled holds, tick until nothing is pending or queued); distinct_nontrivial = histories with a "
+                       "SUCCED or ERROR reply")
 
 
 def replay(path):
     """./check C11 --replay <file>: re-run the recorded history on the REAL code and on the model; print both and the monitors."""
     ctx = vlib.Ctx("C11", "quick")
     try:
-        d = json.load(open(path))
+        raw = open(path).read()
+        try:
+            d = json.loads(raw)
+        except ValueError:      # a plain text file with `ack …` lines
+            d = [l.strip() for l in raw.splitlines() if l.startswith("ack ")]
         lines = []
 
         def collect(o):
@@ -111,7 +160,10 @@ def replay(path):
         # the recorded line carries the virtual start time of its run; the replay starts at its own clock
         open(rp, "w").write("\n".join(dict.fromkeys(lines)) + "\n")
         exe = ctx.build_harness("server", only=ACK_FILES)
-        outdir = ctx.run_harness(exe, "ack", 0, extra={"VERIF_ACK_SCRIPT": rp, "VERIF_ACK_SCRIPT_ONLY": "1"})
+        extra = {"VERIF_ACK_SCRIPT": rp, "VERIF_ACK_SCRIPT_ONLY": "1"}
+        if os.environ.get("VERIF_ACK_NOABORT"):
+            extra["VERIF_ACK_NOABORT"] = "1"   # keep going after a reference-count anomaly (to see the crash it leads to)
+        outdir = ctx.run_harness(exe, "ack", 0, extra=extra)
         dis = ctx.diff(outdir, "ack")
         for (i, op, impl, model) in dis or []:
             print("MODEL/IMPL DISAGREE:", first_divergence(op, impl, model))
